@@ -119,6 +119,8 @@ pub fn link() -> impl Strategy<Value = Link> {
         2 => Just(Link::Average),
         2 => Just(Link::Weighted),
         2 => Just(Link::Ward),
+        2 => Just(Link::Centroid),
+        2 => Just(Link::Median),
     ]
 }
 
@@ -174,4 +176,9 @@ pub fn placement() -> impl Strategy<Value = (bool, Vec<f64>, f64)> {
         3 => (offsets(&[0.0, 1e3, 1e6, 1e8]), scale.clone()).prop_map(|(o, s)| (false, o, s)),
         1 => (offsets(&[0.0, 1000.0, 2048.0]), scale).prop_map(|(o, s)| (true, o, s)),
     ]
+}
+
+/// memory layout of the records (see `kernel::layout_name`): row-major half of the time
+pub fn layout() -> impl Strategy<Value = u8> {
+    prop_oneof![3 => Just(0u8), 4 => 1u8..7]
 }
